@@ -433,4 +433,71 @@ theorem cleanLoop_removable (cmd : Cmd) (gf : String) (l : List FileInfo) :
               simp only [removable, generatedBy, hgen'.1, haio', Bool.not_false, Bool.and_self]
             · exact lift hn
 
+/-! ### the first line of a file; the order of write phase and clean-up -/
+
+theorem isPrefixOf_takeWhile (p : List Char) (q : Char → Bool) : ∀ l : List Char, p.isPrefixOf (l.takeWhile q) = true → p.isPrefixOf l = true := by
+  induction p with
+  | nil => intro l _; simp
+  | cons a r ih =>
+    intro l h
+    cases l with
+    | nil => simp [List.takeWhile] at h
+    | cons b t =>
+      simp only [List.takeWhile] at h
+      split at h
+      · simp only [List.isPrefixOf, Bool.and_eq_true] at h ⊢
+        exact ⟨h.1, ih t h.2⟩
+      · simp [List.isPrefixOf] at h
+
+theorem firstLineOf_append (l r : List Char) (h : '\n' ∉ l) : firstLineOf (l ++ '\n' :: r) = l := by
+  induction l with
+  | nil => simp [firstLineOf, List.takeWhile]
+  | cons a t ih =>
+    have ha : a ≠ '\n' := fun e => h (by simp [e])
+    have ht : '\n' ∉ t := fun e => h (by simp [e])
+    simp only [firstLineOf] at ih ⊢
+    simp [List.takeWhile, ha, ih ht]
+
+/-- the clean-up follows the last rename: at a crash point (or at the end) at which an entry that existed before the run, and is
+    neither an output nor a temp file, is GONE, every output transaction has been carried out completely - the op prefix is the
+    whole write phase followed by some of the removals -/
+theorem clean_follows_writes (s : State) (xs : List Txn) (rms : List Path) (k : Nat) (hinv : Inv s) (hfresh : freshTemps s xs)
+    (p : Path) (hp1 : p ∉ tmps xs) (hp2 : p ∉ targets xs) (hex : s.dir p ≠ none)
+    (hgone : (exec s ((runOps xs rms).take k)).dir p = none) :
+    ∃ j, (runOps xs rms).take k = txnsOps xs ++ (rms.take j).map .remove := by
+  by_cases hk : k ≤ (txnsOps xs).length
+  · exfalso
+    have hpre : (runOps xs rms).take k = (runOps xs []).take k := by
+      simp only [runOps, List.map_nil, List.append_nil]
+      rw [List.take_append_of_le_length hk]
+    rw [hpre] at hgone
+    rcases run_read xs s [] k p hinv hfresh hp1 with h | ⟨x, hx, hxt, _⟩ | ⟨h, _⟩
+    · simp only [read, hgone, Option.map_none] at h
+      cases hd : s.dir p with
+      | none => exact hex hd
+      | some i => simp [hd] at h
+    · exact hp2 (hxt ▸ List.mem_map_of_mem (f := (·.target)) hx)
+    · cases h
+  · refine ⟨k - (txnsOps xs).length, ?_⟩
+    simp only [runOps]
+    rw [List.take_append, List.take_of_length_le (by omega), List.map_take]
+
+/-- a file is removed only if its CONTENT starts with this sub-command's header prefix: whatever stands on later lines - a quoted
+    header in a comment, in a raw string, behind a licence block - plays no role -/
+theorem clean_content_header (cmd : Cmd) (gf : String) (files : List (String × String)) (n : String)
+    (h : n ∈ cleanLoop cmd gf (files.map (fun p => FileInfo.ofContent p.1 p.2))) :
+    ∃ p ∈ files, p.1 = n ∧ (genPrefix cmd).isPrefixOf p.2.toList = true := by
+  obtain ⟨f, hf, hfn, _, hr⟩ := cleanLoop_removable cmd gf _ n h
+  simp only [List.mem_map] at hf
+  obtain ⟨p, hp, rfl⟩ := hf
+  refine ⟨p, hp, hfn, ?_⟩
+  simp only [removable, generatedBy, FileInfo.ofContent, Bool.and_eq_true, String.toList_ofList] at hr
+  exact isPrefixOf_takeWhile _ _ _ hr.1
+
+/-- and the decision is a function of the first line alone: two directory listings whose files agree in name and first line
+    are cleaned alike -/
+theorem clean_first_line_decides (cmd : Cmd) (gf : String) (name : String) (line rest1 rest2 : List Char) (h : '\n' ∉ line) :
+    FileInfo.ofContent name (String.ofList (line ++ '\n' :: rest1)) = FileInfo.ofContent name (String.ofList (line ++ '\n' :: rest2)) := by
+  simp only [FileInfo.ofContent, String.toList_ofList, firstLineOf_append _ _ h]
+
 end ShootVerif.Fs
